@@ -360,6 +360,11 @@ impl Write for SendScripted {
         s.calls.push(vcore::c06::InnerCall { offered: buf.to_vec(), step, accepted: n });
         r
     }
+    /// a real gathering write: the script's byte counts run across the slices
+    fn write_vectored(&mut self, bufs: &[std::io::IoSlice<'_>]) -> std::io::Result<usize> {
+        let all: Vec<u8> = bufs.iter().flat_map(|b| b.iter().copied()).collect();
+        self.write(&all)
+    }
     fn flush(&mut self) -> std::io::Result<()> {
         self.0.lock().expect("lock").flushes += 1;
         if self.1 {
@@ -368,6 +373,36 @@ impl Write for SendScripted {
         }
         Ok(())
     }
+}
+
+/// A writer that keeps a coloured transcript of what passes through it: its own `write` performs a coloured write on
+/// another stream (stacked adapters, a tee).
+struct Tee {
+    inner: Vec<u8>,
+    transcript: Vec<u8>,
+}
+
+impl Write for Tee {
+    fn write(&mut self, buf: &[u8]) -> std::io::Result<usize> {
+        let _ = self.transcript.write_colored(color(9), None, buf)?;
+        self.inner.extend_from_slice(buf);
+        Ok(buf.len())
+    }
+    fn flush(&mut self) -> std::io::Result<()> {
+        Ok(())
+    }
+}
+
+pub fn check_nested(fgi: usize, bgi: usize, data: &[u8]) -> Result<(), (String, String)> {
+    let mut tee = Tee { inner: vec![], transcript: vec![] };
+    let n = {
+        let w: &mut dyn Write = &mut tee;
+        w.write_colored(color(fgi), color(bgi), data).map_err(|e| ("c17:nested:unexpected-error".to_string(), e.to_string()))?
+    };
+    if n != data.len() {
+        return Err(("c17:nested:count".into(), format!("returned {n} for {} data bytes", data.len())));
+    }
+    check_framing(&tee.inner, fgi, bgi, data, n).map_err(|(s, m)| (s.replace("c17:", "c17:nested:"), m))
 }
 
 pub fn check_scripted(fgi: usize, bgi: usize, data: &[u8], script: &[Step], st: Option<&mut Stats>) -> Result<(), (String, String)> {
@@ -485,7 +520,20 @@ pub fn check_scripted(fgi: usize, bgi: usize, data: &[u8], script: &[Step], st: 
     }
 }
 
-pub const DATA: [&[u8]; 8] = [b"x", b"hello world", "\u{e9}\u{6f22}\u{1f600}".as_bytes(), b"tab\tnl\nend", b"", b"0123456789", b"m[31m;", b"a\x1b[1mb\xff"];
+pub const DATA: [&[u8]; 11] = [
+    b"x",
+    b"hello world",
+    "\u{e9}\u{6f22}\u{1f600}".as_bytes(),
+    b"tab\tnl\nend",
+    b"",
+    b"0123456789",
+    b"m[31m;",
+    b"a\x1b[1mb\xff",
+    // pre-styled data that ends with its own reset
+    b"warning\x1b[0m",
+    b"w\x1b[m",
+    b"ab\x1b[1mcd\x1b[0m\x1b[0m",
+];
 
 fn eval(r: Result<Result<(), (String, String)>, String>, st: &mut Stats, case: Case, enumerated: bool, nontrivial: bool) {
     st.eval();
@@ -549,7 +597,7 @@ pub fn run(cfg: &Cfg) -> Stats {
                     }
                     gen::enum_decode(si, STEPS.len() as u64, &mut digits);
                     let script: Vec<Step> = digits.iter().map(|d| STEPS[*d]).collect();
-                    let data = DATA[(si % 4) as usize];
+                    let data = DATA[(si as usize + fgi + bgi) % DATA.len()];
                     let mut case = Case::new("c17-scripted").b(data).n(fgi as i64).n(bgi as i64);
                     for s in &script {
                         case = case.n(s.code());
@@ -603,6 +651,19 @@ pub fn run(cfg: &Cfg) -> Stats {
                         st.count("standard_stream_child_runs");
                         eval(r, &mut st, case, true, true);
                     }
+                }
+            }
+            // a writer whose own write performs a coloured write
+            for (di, data) in DATA.iter().enumerate() {
+                for pair in [(0usize, 0usize), (3, 1), (0, 9), (12, 0), (5, 5)] {
+                    k += 1;
+                    if k % n != shard {
+                        continue;
+                    }
+                    let case = Case::new("c17-nested").b(data).n(pair.0 as i64).n(pair.1 as i64).n(di as i64);
+                    let r = vcore::guarded(|| check_nested(pair.0, pair.1, data));
+                    st.count("nested_coloured_writes");
+                    eval(r, &mut st, case, true, true);
                 }
             }
             // several threads through the process-wide handles
@@ -682,7 +743,7 @@ pub fn run(cfg: &Cfg) -> Stats {
         o.set("writer_received", J::s(show(&v)));
         o
     });
-    st.exhaustive_parts.push("all 17x17 (fg,bg) pairs x 8 data samples x {Vec, File, &mut dyn Write, Box<dyn Write>} without faults".into());
+    st.exhaustive_parts.push("all 17x17 (fg,bg) pairs x 11 data samples x {Vec, File, &mut dyn Write, Box<dyn Write>} without faults".into());
     st.notes.push("standard-stream kinds (Stdout, StdoutLock, Stderr, StderrLock) run in child processes with both pipes captured, data including invalid UTF-8; the File kind is also written after a failed call on a read-only handle".into());
     st.exhaustive_parts.push(format!("all 17x17 pairs x all inner-writer scripts of length <= {depth_all} (length <= {depth_some} for 6 pairs) over 8 step kinds"));
     st
@@ -707,6 +768,8 @@ pub fn replay(case: &Case) -> Result<String, Viol> {
     let r = if case.kind == "c17-stdio" {
         let kind = STDIO_KINDS[case.nums.get(2).copied().unwrap_or(0) as usize % 4];
         vcore::guarded(|| check_stdio(kind, fgi, bgi, &data))
+    } else if case.kind == "c17-nested" {
+        vcore::guarded(|| check_nested(fgi, bgi, &data))
     } else if case.kind == "c17-fileseq" {
         vcore::guarded(|| check_file_sequence(fgi, bgi, &data))
     } else if case.kind == "c17-plain" {
